@@ -205,7 +205,10 @@ def rule_adv(R):
         if "agg" in rv and rv["agg"].get("adt") == "properties::Property" and rv["agg"].get("variant") == "MaximumPacketSize":
             t = hcode.rvalue_term(rv)
             v = t[5][0]
-            ok = v[0] == "cast" and is_call(peel(v[2]), "len") and chain(peel(v[2])[3][0])[1][-2:] == ["packet_reader", "buffer"]
+            inner = peel(v[2]) if v[0] == "cast" else None
+            if inner is not None and not is_call(inner, "len"):
+                inner = peel(roles.expand_getter(f, inner))   # an accessor such as PacketReader::capacity()
+            ok = v[0] == "cast" and inner is not None and is_call(inner, "len") and chain(peel(inner[3][0]))[1][-2:] == ["packet_reader", "buffer"]
     R.ob("adv/connect-property", ok,
          "CONNECT advertises Maximum Packet Size = length of the receive buffer", where=hb.span)
     n = 0
